@@ -276,17 +276,50 @@ def _k6(ctx):
     ctx.floor(R, 1)
 
 
+def _k7(ctx):
+    R = "C07-K7"
+    ctx.doc(R, "columns that are emitted again are not accumulated into in place: in the symbolic path a column is an array, so `x = col; x += other` changes `col` too (the concrete path holds scalars and is unaffected -- the two paths then disagree)")
+    fi = ctx.func(MTS, "_clean_energy_columns", R)
+    alias = {}
+
+    def root(n):
+        seen = 0
+        while n in alias and seen < 5:
+            n = alias[n]
+            seen += 1
+        return n
+    emitted = set()
+    order = list(fi.stmts())
+    for st in order:
+        for t, v, aug in assigned_targets(st):
+            if isinstance(t, ast.Name) and isinstance(v, ast.Name) and not aug:
+                alias[t.id] = v.id
+            if isinstance(t, ast.Subscript) and isinstance(v, ast.Name):
+                emitted.add(root(v.id))
+    ctx.require(len(emitted) >= 2, R, f"columns emitted from locals: {sorted(emitted)}")
+    n = 0
+    for st in order:
+        if isinstance(st, ast.AugAssign) and isinstance(st.target, ast.Name) and not getattr(st, "_rebinds", False):
+            n += 1
+            ctx.check(root(st.target.id) not in emitted, R, fi, st, f"`{norm(st)}` accumulates in place into an object that is also emitted as a column of its own (`{root(st.target.id)}`): with array-valued columns the separately "
+                      "reported dynamic / leak energy then already contains the other part", "in-place accumulation only into a fresh object")
+    ctx.ok(R, fi, fi.node, f"in-place accumulations examined: {n}; emitted locals {sorted(emitted)}", nontrivial=False)
+
+
 def check(ctx):
     _k1(ctx)
     _k2(ctx)
     _k3(ctx)
     _k4(ctx)
     _k6(ctx)
+    _k7(ctx)
     from . import c03
     c03._v8(ctx, "C07-K5")  # a memory wrongly left untracked has no usage formula at all: same sibling-agreement rule as C03-V8
 
 
 VARIANTS = [
+    {"kind": "F", "name": "dynamic-energy-accumulated-in-place", "rule": "C07-K7", "edits": [(MTS, '        df["Total<SEP>energy"] = leak + dynamic\n', '        energy = dynamic\n        energy += leak\n        df["Total<SEP>energy"] = energy\n')]},
+    {"kind": "S", "name": "total-energy-through-a-rebinding-sum", "edits": [(MTS, '        df["Total<SEP>energy"] = leak + dynamic\n', '        energy = dynamic\n        energy = energy + leak\n        df["Total<SEP>energy"] = energy\n')]},
     {"kind": "F", "name": "lambdify-key-forgets-symbol-order", "rule": "C07-K6", "edits": [(PAR, "        cache_args = tuple(tuple(a) if isinstance(a, list) else a for a in args)", "        cache_args = tuple(frozenset(a) if isinstance(a, list) else a for a in args)")]},
     {"kind": "F", "name": "rational-converted-as-integer", "rule": "C07-K4", "edits": [(MTS, "        elif t is se.Integer:\n            r = sympy.Integer(int(v))\n        elif t is se.Rational:\n            r = sympy.Rational(int(v.p), int(v.q))\n", "        elif t is se.Integer or t is se.Rational:\n            r = sympy.Integer(int(v))\n")]},
     {"kind": "F", "name": "min-converted-as-max", "rule": "C07-K4", "edits": [(MTS, "            cls = sympy.Max if t is se.Max else sympy.Min", "            cls = sympy.Max")]},
